@@ -73,7 +73,7 @@ func NewNumericRangeSearcher(ctx context.Context, indexReader index.IndexReader,
 
 	// FIXME hard-coded precision, should match field declaration
 	termRanges := splitInt64Range(minInt64, maxInt64, 4)
-	terms := termRanges.Enumerate(isIndexed)
+	terms := termRanges.enumerateTerms(isIndexed)
 	if fieldDict != nil {
 		if fd, ok := fieldDict.(index.FieldDict); ok {
 			if err = fd.Close(); err != nil {
@@ -178,7 +178,49 @@ func incrementBytes(in []byte) []byte {
 	return rv
 }
 
+// enumerateTerms is Enumerate restricted to the byte strings that are
+// prefix coded terms. A prefix coded term carries 7 bits in every byte after
+// the first, so stepping through a range as if the bytes were base 256 visits
+// up to 2^(8n) strings to find the few terms among them, and a narrow range
+// that crosses a 7 bit boundary never finishes.
+func (t *termRange) enumerateTerms(filter filterFunc) [][]byte {
+	var rv [][]byte
+	next := t.startTerm
+	for bytes.Compare(next, t.endTerm) <= 0 {
+		if filter == nil || filter(next) {
+			rv = append(rv, next)
+		}
+		next = incrementPrefixCoded(next)
+	}
+	return rv
+}
+
+func incrementPrefixCoded(in []byte) []byte {
+	rv := make([]byte, len(in))
+	copy(rv, in)
+	for i := len(rv) - 1; i > 0; i-- {
+		rv[i]++
+		if rv[i] < 0x80 {
+			return rv
+		}
+		rv[i] = 0
+	}
+	if len(rv) > 0 {
+		// no further term with this shift, this ends the enumeration
+		rv[0]++
+	}
+	return rv
+}
+
 type termRanges []*termRange
+
+func (tr termRanges) enumerateTerms(filter filterFunc) [][]byte {
+	var rv [][]byte
+	for _, tri := range tr {
+		rv = append(rv, tri.enumerateTerms(filter)...)
+	}
+	return rv
+}
 
 func (tr termRanges) Enumerate(filter filterFunc) [][]byte {
 	var rv [][]byte
